@@ -18,4 +18,4 @@ def run(tier):
     progs = gen.c15_scope(tier)
     return run_e2e_property("C15", tier, EXPLANATION, "DESIGN §4 C15",
                             [("e2e-calls", progs, "function-call shapes (coercion, shadowing, nesting, loops, entity params/returns)")],
-                            contract_modules=["contracts.c11", "contracts.cdispatch", "contracts.c15", "contracts.c03"])
+                            contract_modules=["contracts.c11", "contracts.cdispatch", "contracts.c15", "contracts.c03", "contracts.c01c"])
